@@ -454,7 +454,7 @@ def is_sym(x) -> bool:
 
 
 def deep_sym(x) -> bool:
-    if isinstance(x, (SV, SList, SObj)):
+    if isinstance(x, (SV, SList, SObj, SChunks)):
         return True
     if isinstance(x, (tuple, list)):
         return any(deep_sym(e) for e in x)
@@ -878,12 +878,13 @@ def slice_bounds(sl, n):
 class SSeq(SV):
     """Immutable symbolic sequence of ints: bytes (0..255) or str (code points)."""
 
-    __slots__ = ("kind", "ascii")
+    __slots__ = ("kind", "ascii", "maxlen")
 
-    def __init__(self, term, kind="bytes", ascii=False):
+    def __init__(self, term, kind="bytes", ascii=False, maxlen=None):
         self.term = term
         self.kind = kind
         self.ascii = ascii  # every element known to be < 128
+        self.maxlen = maxlen  # static upper bound of the length when known (slices [a:a+k])
 
     # construction helpers
     def _same(self, o):
@@ -935,7 +936,16 @@ class SSeq(SV):
         n = z3.Length(self.term)
         if isinstance(i, slice):
             lo, ln = slice_bounds(i, n)
-            return _seq_value(z3.SubSeq(self.term, lo, ln), self.kind, self.ascii)
+            r = _seq_value(z3.SubSeq(self.term, lo, ln), self.kind, self.ascii)
+            if isinstance(r, SSeq) and i.start is not None and i.stop is not None:
+                try:
+                    d = z3.simplify(num_term(i.stop) - num_term(i.start))
+                    if z3.is_int_value(d) and 0 <= d.as_long() <= 16 and not (
+                            isinstance(i.start, int) and i.start < 0) and not (isinstance(i.stop, int) and i.stop < 0):
+                        r.maxlen = d.as_long()
+                except Unsupported:
+                    pass
+            return r
         if not isinstance(i, (int, SInt)):
             raise TypeError("indices must be integers")
         t = num_term(i)
@@ -1215,6 +1225,41 @@ def snap_value(v):
     if isinstance(v, dict):
         return dict(v)
     return v
+
+
+class SChunks:
+    """A list of byte/str chunks of which only the concatenation is
+    observable (built with append/extend, consumed by b"".join).  Used for
+    the `r = []; r.append(...); b"".join(r)` idiom inside loops."""
+
+    def __init__(self, joined, kind="bytes"):
+        self.joined = joined
+        self.kind = kind
+
+    def append(self, x):
+        if kind_of(x) != self.kind:
+            raise Unsupported("append of %r to a %s chunk list" % (type(x).__name__, self.kind))
+        self.joined = self.joined + x
+
+    def extend(self, xs):
+        for x in xs:
+            self.append(x)
+
+    def copy(self):
+        return SChunks(self.joined, self.kind)
+
+    def __repr__(self):
+        return "SChunks(%r)" % (self.joined,)
+
+
+def joined(r, kind="bytes"):
+    """Concatenation of a chunk list (SChunks or a plain list of chunks)."""
+    if isinstance(r, SChunks):
+        return r.joined
+    out = b"" if kind == "bytes" else ""
+    for x in r:
+        out = out + x
+    return out
 
 
 class SList:
